@@ -1,0 +1,10 @@
+//go:build !verif
+
+package client
+
+import "time"
+
+// verifScanTick is a hook for verification builds; a nil channel never fires.
+func verifScanTick() <-chan time.Time {
+	return nil
+}
